@@ -171,6 +171,7 @@ pub(crate) fn build_node(
             source: None,
             children: vec![],
         });
+        builder.mark_incomplete(&id);
         return Ok(vec![id]);
     }
 
@@ -284,7 +285,10 @@ pub(crate) fn build_node(
                         .filter(|(name, _)| !name.starts_with("_placeholder_"))
                         .collect();
 
-                    let id = builder.insert(ProofNode {
+                    // A step resting on a truncated premise must not be memoized: the
+                    // same tuple may have a complete proof when asked for at a smaller depth.
+                    let rests_on_incomplete = child_ids.iter().any(|c| builder.is_incomplete(c));
+                    let node = ProofNode {
                         kind: NodeKind::Rule,
                         conclusion: Conclusion {
                             pred: relation.to_string(),
@@ -303,7 +307,14 @@ pub(crate) fn build_node(
                         why_not: None,
                         source: None,
                         children: child_ids,
-                    });
+                    };
+                    let id = if rests_on_incomplete {
+                        let id = builder.insert_unique(node);
+                        builder.mark_incomplete(&id);
+                        id
+                    } else {
+                        builder.insert(node)
+                    };
                     result_ids.push(id);
                 }
             }
